@@ -1,5 +1,5 @@
 """C11 — the access API always answers, and never with success to a bad request"""
-from tiecommon import TIE_DENY, TIE_TTLCODE, TIE_NOTE, TIE_ASSUMPTION
+from tiecommon import TIE_DENY, TIE_TTLCODE, TIE_ACCESS, TIE_NOTE, TIE_ASSUMPTION
 from relaycommon import RelayMode, RawMode
 
 RULE = ("relay mode (see C01): every answer must be a complete HTTP response with JSON (or empty 204) body, success only for a request "
@@ -14,7 +14,7 @@ P = "Relay.Props.C11"
 THEOREMS = [(f"Access.{n}", P) for n in ["success_iff_valid", "refusal_keeps_state", "missing_claims_refused", "deny_status",
                                          "allow_status", "list_status", "status_status"]] + \
            [("Access.session_refused_no_effect", "Relay.Props.C01"), ("Access.session_ok_iff", "Relay.Props.C01")]
-THEOREMS = THEOREMS + TIE_DENY + TIE_TTLCODE
+THEOREMS = THEOREMS + TIE_DENY + TIE_TTLCODE + TIE_ACCESS
 RULE = TIE_NOTE + RULE
 ASSUMPTIONS = ASSUMPTIONS + [TIE_ASSUMPTION]
 
